@@ -1,7 +1,7 @@
 (* C01 — Two endpoints built on the library interoperate, even across transport loss.
    Statements only.  Nothing else may be added to this file. *)
 From MQ Require Import Base.Prelude Alloc.Alloc Framing.Framing Framing.FramingProofs Conn.Types Conn.ConnRecord Conn.Step
-                       Corr.ConnTrace Conn.Scope Conn.Session Conn.IdsQuota.
+                       Corr.ConnTrace Conn.Scope Conn.Session Conn.IdsQuota Conn.Own Conn.OwnStep Conn.Run Conn.PairQos.
 
 (* what the pair property rests on, each proved for ALL states of one endpoint:
    (i) delivery in any fragmentation is the same byte stream (C09) *)
@@ -33,14 +33,93 @@ Theorem C01_unmatched_ack_is_error : forall g c v t p,
 Proof. exact unmatched_ack_is_error. Qed.
 Print Assumptions C01_unmatched_ack_is_error.
 
-(* C01_partial: the system-level statements — no protocol error on either side, termination,
-   exactly-once / at-least-once / at-most-once delivery with the original topic and payload,
-   quiescence (all identifiers released, stores empty, full vacancy) — over all workloads,
-   delivery interleavings, fragmentations and loss points are decided on PAIRS OF REAL OBJECTS by
+(* (v) THE PAIR, on an intact link, v3.1.1, automatic responses: for EVERY sender state that satisfies the ownership
+   invariant (C08/C06: every state of a contract-respecting history does) and every established receiver state, a
+   QoS 1 exchange completes — the PUBLISH is requested for sending; handed to the receiver it is notified exactly
+   once and a PUBACK is requested; handed back, the PUBACK releases the identifier, empties the store entry and the
+   awaited sets.  No call panics.  "deliver" is the model's recv() of the frame of that packet
+   (C01_recv_call_is_deliver below); that the frame carries the packet is C02/C09. *)
+Theorem C01_pair_qos1_completes : forall gs gr cs cr p,
+  OWN gs cs -> ready cs -> ready cr -> c_auto_pub cr = true -> v311_pub p 1 ->
+  fresh cs (k_pid p) -> is_used cs (k_pid p) = true ->
+  exists cs1 e1 cr1 e2 cs2 e3,
+    send_publish_v311 cs p = Ok (cs1, e1) /\ In p (sends e1) /\
+    deliver gr cr p = Ok (cr1, e2) /\ notifies e2 = [p] /\ In (puback_for gr p) (sends e2) /\
+    deliver gs cs1 (puback_for gr p) = Ok (cs2, e3) /\ In (k_pid p) (released e3) /\
+    is_used cs2 (k_pid p) = false /\ store_has (k_pid p) (c_store cs2) = false /\
+    mem (k_pid p) (c_puback cs2) = false /\ mem (k_pid p) (c_pubrec cs2) = false /\ mem (k_pid p) (c_pubcomp cs2) = false.
+Proof. exact qos1_completes. Qed.
+Print Assumptions C01_pair_qos1_completes.
+
+(* ... and a QoS 2 exchange completes in its four steps: PUBLISH notified once and recorded, PUBREC requested;
+   the sender answers it with PUBREL and keeps the identifier; the receiver is notified of the PUBREL and requests
+   PUBCOMP; the PUBCOMP releases the identifier and leaves nothing of the exchange behind *)
+Theorem C01_pair_qos2_completes : forall gs gr cs cr p,
+  OWN gs cs -> ready cs -> c_auto_pub cs = true -> ready cr -> c_auto_pub cr = true -> v311_pub p 2 ->
+  fresh cs (k_pid p) -> is_used cs (k_pid p) = true -> mem (k_pid p) (c_qos2 cr) = false ->
+  exists cs1 e1 cr1 e2 cs2 e3 cr2 e4 cs3 e5,
+    send_publish_v311 cs p = Ok (cs1, e1) /\ In p (sends e1) /\
+    deliver gr cr p = Ok (cr1, e2) /\ notifies e2 = [p] /\ In (pubrec_for gr p) (sends e2) /\
+    deliver gs cs1 (pubrec_for gr p) = Ok (cs2, e3) /\ In (pubrel_for gs p) (sends e3) /\ is_used cs2 (k_pid p) = true /\
+    deliver gr cr1 (pubrel_for gs p) = Ok (cr2, e4) /\ notifies e4 = [pubrel_for gs p] /\ In (pubcomp_for gr p) (sends e4) /\
+    deliver gs cs2 (pubcomp_for gr p) = Ok (cs3, e5) /\ In (k_pid p) (released e5) /\
+    is_used cs3 (k_pid p) = false /\ store_has (k_pid p) (c_store cs3) = false /\
+    mem (k_pid p) (c_puback cs3) = false /\ mem (k_pid p) (c_pubrec cs3) = false /\ mem (k_pid p) (c_pubcomp cs3) = false.
+Proof. exact qos2_completes. Qed.
+Print Assumptions C01_pair_qos2_completes.
+
+(* the tie of those statements to the step function that the correspondence runs against the code *)
+Theorem C01_send_call_is_send_publish : forall g c p q, c_version c = V311 -> v311_pub p q ->
+  step g c (OSend p) = bindr (send_publish_v311 c p) (fun '(c', e) => Ok (c', e, [])).
+Proof. exact step_send_publish_v311. Qed.
+Print Assumptions C01_send_call_is_send_publish.
+
+Theorem C01_recv_call_is_deliver : forall g c bytes p hdr body pb' rest,
+  feed (c_pb c) bytes = (FComplete hdr body, pb', rest) ->
+  hd 0 hdr / 16 = k_type p -> 3 <= k_type p <= 7 -> c_version c = V311 ->
+  (c_mps_recv c <? remaining_length_to_total_size (N.of_nat (length body))) = false ->
+  step g c (ORecv bytes (PROk p)) =
+  bindr (deliver g (set_pb c pb') p) (fun '(c', e) => Ok (c', e, [N.of_nat (length rest)])).
+Proof. exact step_recv_is_deliver. Qed.
+Print Assumptions C01_recv_call_is_deliver.
+
+(* C01_partial: the system-level statements over ALL workloads — several exchanges in flight, every delivery
+   interleaving, fragmentation and loss point, v5.0 with its limits, manual responses; no protocol error on either
+   side, termination, exactly-once / at-least-once / at-most-once delivery with the original topic and payload,
+   quiescence (all identifiers released, stores empty, full vacancy) — are decided on PAIRS OF REAL OBJECTS by
    the monitor mon_c01 (harness conn_duo.rs wires a client and a server object by two byte
-   queues) and both objects are tied to the model by the full-digest correspondence chk_duo.  A
-   theorem about the two-endpoint system (pair invariant + termination measure) is not part of
-   this development; what is proved are the per-endpoint facts above and under C05-C16. *)
+   queues) and both objects are tied to the model by the full-digest correspondence chk_duo.  What is PROVED of the
+   pair is the single-exchange completion above (one QoS 1 / QoS 2 exchange on an intact v3.1.1 link, from every
+   admissible pair of states) together with the per-endpoint facts (i)-(iv) and those under C05-C16; a pair invariant
+   with a termination measure for arbitrarily many concurrent exchanges and loss points is not part of this
+   development. *)
+
+(* the premises of the pair theorems are met by two endpoints after an ordinary handshake *)
+Example C01_pair_nonvacuous :
+  let gs := mkCfg RClient 65535 2 in
+  let gr := mkCfg RServer 65535 2 in
+  let cn := mkPkt 1 V311 0 0 false false [] None 0 0 14 false 0 true 0 None None None None None in
+  let ca := mkPkt 2 V311 0 0 false false [] None 0 0 4 true 0 false 0 None None None None None in
+  let ops_s := [OSetAutoPub true; OSend cn; ORecv [32;2;0;0] (PROk ca); OAcquire] in
+  let ops_r := [OSetAutoPub true; ORecv [16;12;0;4;77;81;84;84;4;2;0;0;0;0] (PROk cn); OSend ca] in
+  let p2 := mkPkt 3 V311 1 2 false false [116] None 0 0 7 false 0 false 0 None None None None None in
+  match run_state gs (conn_new gs V311) ops_s, run_state gr (conn_new gr V311) ops_r with
+  | Some cs, Some cr =>
+      OWN gs cs /\ ready cs /\ c_auto_pub cs = true /\ ready cr /\ c_auto_pub cr = true /\ v311_pub p2 2 /\
+      fresh cs 1 /\ is_used cs 1 = true /\ mem 1 (c_qos2 cr) = false
+  | _, _ => False
+  end.
+Proof.
+  cbv zeta.
+  pose proof (fresh_OWN_invariant (mkCfg RClient 65535 2) V311
+    [OSetAutoPub true; OSend (mkPkt 1 V311 0 0 false false [] None 0 0 14 false 0 true 0 None None None None None);
+     ORecv [32;2;0;0] (PROk (mkPkt 2 V311 0 0 false false [] None 0 0 4 true 0 false 0 None None None None None)); OAcquire]) as HO.
+  assert (H1 : 1 <= g_idmax (mkCfg RClient 65535 2)) by (cbn; lia).
+  assert (H2 : V311 <> VUndet) by discriminate.
+  specialize (HO H1 H2). clear H1 H2.
+  match type of HO with ?A -> _ => assert (HQ : A) by (vm_compute; repeat split; try reflexivity; try discriminate; intros; try discriminate) end.
+  specialize (HO HQ). clear HQ. revert HO. vm_compute. intro HO. split; [exact HO|]. repeat split; reflexivity.
+Qed.
 
 Example C01_nonvacuous :
   let g := mkCfg RClient 65535 2 in
